@@ -66,6 +66,8 @@ pub struct Obs {
     /// pre-order API walk of the returned tree
     pub api: Vec<ApiNode>,
     pub panic: Option<String>,
+    /// the parse returned, but walking the returned tree through the public API panicked
+    pub walk_panic: Option<String>,
     /// how many times the answer script was consulted
     pub consulted: usize,
 }
